@@ -441,3 +441,88 @@ Proof.
   intros R S Ne. destruct (storedb t (s_store (fst (step s o)))) eqn:E; [reflexivity|].
   destruct (removed_only_after_success s o t R S E) as [K _]. contradiction.
 Qed.
+
+(* ---- thread fairness is not enough: a schedule in which the poller completes pass after pass
+   and the retry worker executes task after task, yet task 2 never reaches the executor, because
+   the retry queue (capacity 1) is full whenever its turn comes (rows are polled in the same order
+   every time and tasks 0 and 1, which keep failing, are ahead of it) *)
+Definition starve_cfg := mkcfg 1 1 1 1 0.
+Definition starve_setup : list op :=
+  [OpStart []; OpAddCheck 0 0 1; OpAddStore 0; OpAddCheck 1 1 1; OpAddStore 1; OpAddCheck 2 2 1; OpAddStore 2].
+Definition starve_round : list op :=
+  [OpTick 1; OpPollGet [0;1;2]; OpPollNext; OpPollEnq; OpDeq QRe; OpPollNext; OpPollEnq; OpPollNext; OpPollEnq;
+   OpPollMark; OpPollNext; OpExecRet 0 false; OpExecFin 0; OpDeq QRe; OpExecRet 1 false; OpExecFin 1].
+Definition srow (i n : N) := mkrow i Failed n 0 1 (Some n).
+Definition starve_state (n : N) (log : list ev) : st :=
+  mks starve_cfg [srow 0 n; srow 1 n; srow 2 n] n (Some (mkm false [] [] 1 1 [] [] None)) log.
+Definition starve_evs := [ERet 1 false; EStart 1; ERet 0 false; EStart 0].
+Definition starve_outs :=
+  [ODone; ODone; OMarked 0; OSent; ODeq 0; OMarked 1; OSent; OMarked 2; OOverflow; ODone; ODone; ODone;
+   OFailed; ODeq 1; ODone; OFailed].
+Fixpoint rep {A} (n : nat) (l : list A) : list A := match n with O => [] | S k => l ++ rep k l end.
+
+Lemma due_s i st f n : due 0 (n + 1) (mkrow i st f 0 1 (Some n)) = true.
+Proof.
+  unfold due, ready. cbn [r_delay r_created r_last]. apply andb_true_iff.
+  split; [apply N.leb_le|apply N.ltb_lt]; lia.
+Qed.
+Lemma run_cons_eq s o ops s1 r :
+  step s o = (s1, r) -> run s (o :: ops) = (let '(s2, rs) := run s1 ops in (s2, r :: rs)).
+Proof. intros E. cbn [run]. rewrite E. reflexivity. Qed.
+Ltac one_step :=
+  erewrite run_cons_eq;
+  [|unfold step; cbn -[N.add N.sub due N.ltb N.leb]; rewrite ?due_s; cbn -[N.add N.sub due N.ltb N.leb]; reflexivity].
+
+Lemma starve_round_run n log :
+  run (starve_state n log) starve_round = (starve_state (n + 1) (starve_evs ++ log), starve_outs).
+Proof.
+  unfold starve_state, starve_round, starve_cfg, srow.
+  do 16 one_step. reflexivity.
+Qed.
+
+Lemma starve_first :
+  run (init starve_cfg) (starve_setup ++ starve_round) =
+  (starve_state 1 starve_evs, [ODone; ODone; OStored Failed; ODone; OStored Failed; ODone; OStored Failed] ++ starve_outs).
+Proof. vm_compute. reflexivity. Qed.
+
+Lemma starve_rounds n : forall k log,
+  run (starve_state k log) (rep n starve_round) = (starve_state (k + N.of_nat n) (rep n starve_evs ++ log), rep n starve_outs).
+Proof.
+  induction n as [|n IH]; intros k log.
+  - cbn [rep run]. rewrite N.add_0_r. reflexivity.
+  - cbn [rep]. rewrite run_app, starve_round_run, IH. f_equal.
+    + f_equal; [lia|]. rewrite <- !app_assoc.
+      assert (G : forall m (x : list ev), rep m x ++ x = x ++ rep m x).
+      { induction m as [|m IHm]; intros x; cbn [rep]; [rewrite app_nil_r; reflexivity|]. rewrite <- app_assoc, IHm. reflexivity. }
+      rewrite app_assoc, G, <- app_assoc. reflexivity.
+Qed.
+
+Lemma in_rep {A} (x : A) n l : In x (rep n l) -> In x l.
+Proof. induction n as [|n IH]; cbn [rep]; intros H; [destruct H|]. apply in_app_or in H. tauto. Qed.
+
+Theorem thread_fairness_insufficient n :
+  exists s outs,
+    run (init starve_cfg) (starve_setup ++ rep (S n) starve_round) = (s, outs) /\
+    legal outs /\ storedb 2 (s_store s) = true /\ ~ In (EStart 2) (s_log s) /\
+    s_log s = rep (S n) starve_evs.
+Proof.
+  cbn [rep]. rewrite app_assoc, run_app, starve_first, starve_rounds.
+  eexists. eexists. split; [reflexivity|]. cbn [s_store s_log starve_state].
+  split; [|split; [reflexivity|split]].
+  - intros K. apply in_app_or in K. destruct K as [K|K].
+    + cbn in K. repeat (destruct K as [K|K]; [discriminate|]). exact K.
+    + apply in_rep in K. cbn in K. repeat (destruct K as [K|K]; [discriminate|]). exact K.
+  - intros K. apply in_app_or in K. destruct K as [K|K]; [apply in_rep in K|];
+      cbn in K; repeat (destruct K as [K|K]; [discriminate|]); exact K.
+  - cbn [rep]. assert (G : forall m (x : list ev), rep m x ++ x = x ++ rep m x).
+    { induction m as [|m IHm]; intros x; cbn [rep]; [rewrite app_nil_r; reflexivity|]. rewrite <- app_assoc, IHm. reflexivity. }
+    apply G.
+Qed.
+
+(* ---- a concrete reachable state used by the non-vacuity examples *)
+Definition ex_ops : list op :=
+  [OpStart []; OpAddCheck 0 0 0; OpAddStore 0; OpAddEnq 0; OpDeq QIn;
+   OpAddCheck 1 1 0; OpAddStore 1; OpAddEnq 1;
+   OpAddCheck 2 2 0; OpAddStore 2; OpAddEnq 2; OpAddMark 2;
+   OpAddCheck 3 3 0; OpAddStore 3].
+Definition ex_state : st := fst (run (init (mkcfg 1 1 1 1 1)) ex_ops).
